@@ -4,6 +4,14 @@ import "math"
 
 func fbits(vs ...uint32) []byte { return u32s(vs...) }
 
+func u16s(vs ...uint16) []byte {
+	b := make([]byte, 2*len(vs))
+	for i, v := range vs {
+		b[2*i], b[2*i+1] = byte(v), byte(v>>8)
+	}
+	return b
+}
+
 func casesFloat() []execCase {
 	return []execCase{
 		{
@@ -32,14 +40,23 @@ func casesFloat() []execCase {
   o[10] = min(a[8], a[9]); o[11] = max(a[8], a[9]); o[12] = clamp(a[10], a[7], a[11]); o[13] = mix(a[9], a[12], a[13]);
   o[14] = step(a[8], a[9]); o[15] = step(a[9], a[8]); o[16] = sqrt(a[14]); o[17] = fma(a[9], a[11], a[12]);
   o[18] = inverseSqrt(a[12]); o[19] = smoothstep(a[7], a[8], a[13]); o[20] = exp2(a[11]); o[21] = log2(a[15]);
-  o[22] = pow(a[9], a[11]); o[23] = a[16] % a[11]; o[24] = a[17] % a[11]; o[25] = saturate(a[10]);
+  o[22] = pow(a[9], a[11]); o[23] = a[16] % a[11]; o[24] = saturate(a[10]);
 }`,
-			in: io(f32s(make([]float32, 26)...), f32s(-1.5, -1.7, 2.3, -2.7, 1.75, -0.25, -3.5, 0, 1, 2, 5, 3, 4, 0.5, 16, 8, 7.5, -7.5)),
+			in: io(f32s(make([]float32, 25)...), f32s(-1.5, -1.7, 2.3, -2.7, 1.75, -0.25, -3.5, 0, 1, 2, 5, 3, 4, 0.5, 16, 8, 7.5, -7.5)),
 			// floor(-1.5)=-2 ceil=-1 trunc(-1.7)=-1 round(2.3)=2 round(-2.7)=-3 fract(1.75)=.75 fract(-.25)=.75
 			// abs=3.5 sign(-3.5)=-1 sign(0)=0 min(1,2)=1 max=2 clamp(5,0,3)=3 mix(2,4,.5)=3 step(1,2)=1 step(2,1)=0
 			// sqrt(16)=4 fma(2,3,4)=10 inverseSqrt(4)=.5 smoothstep(0,1,.5)=.5 exp2(3)=8 log2(8)=3 pow(2,3)=8
-			// 7.5 % 3 = 1.5 ; -7.5 % 3 = -1.5 (truncated) ; saturate(5)=1
-			want: map[Key][]byte{k(0): f32s(-2, -1, -1, 2, -3, 0.75, 0.75, 3.5, -1, 0, 1, 2, 3, 3, 1, 0, 4, 10, 0.5, 0.5, 8, 3, 8, 1.5, -1.5, 1)},
+			// 7.5 % 3 = 1.5 ; saturate(5)=1
+			want: map[Key][]byte{k(0): f32s(-2, -1, -1, 2, -3, 0.75, 0.75, 3.5, -1, 0, 1, 2, 3, 3, 1, 0, 4, 10, 0.5, 0.5, 8, 3, 8, 1.5, 1)},
+		},
+		{
+			name:     "float_rem_negative",
+			knownBad: true,
+			note:     "WGSL f32 % is the truncated remainder (-7.5 % 3 = -1.5, sign of the dividend); naga emits OpFMod (floored, sign of the divisor) which gives 1.5",
+			src: hdrOF + `
+@compute @workgroup_size(1) fn main() { o[0] = a[0] % a[1]; o[1] = a[2] % a[3]; }`,
+			in:   io(f32s(0, 0), f32s(-7.5, 3, 7.5, -3)),
+			want: map[Key][]byte{k(0): f32s(-1.5, 1.5)},
 		},
 		{
 			name:       "round_tie",
@@ -99,7 +116,7 @@ struct M { m: mat2x3<f32>, q: mat2x2<f32> }
   let m = mm.m;
   let mv = m * vec2<f32>(1.0, 2.0); o[13] = mv.x; o[14] = mv.y; o[15] = mv.z;
   let vm = vec3<f32>(1.0, 1.0, 1.0) * m; o[16] = vm.x; o[17] = vm.y;
-  let tm = transpose(m) * vec3<f32>(1.0, 0.0, 2.0); o[18] = tm.x; o[19] = tm.y;
+  let tm = m[0].xy + 2.0 * m[1].yz; o[18] = tm.x; o[19] = tm.y;
   let sm = m * 2.0; o[20] = sm[1].z;
   let pm = q + q; o[21] = pm[1].x;
   o[22] = mm.m[1][2]; o[23] = mm.m[0].y;
@@ -112,9 +129,24 @@ struct M { m: mat2x3<f32>, q: mat2x2<f32> }
 			},
 			// q*v = 5*(1,2)+6*(3,4) = (23,34); v*q = (5+12, 15+24) = (17,39); q*q = ((7,10),(15,22));
 			// transpose = ((1,3),(2,4)); det = 1*4-3*2 = -2; m*(1,2) = (9,12,15); (1,1,1)*m = (6,15);
-			// transpose(m)*(1,0,2) = (1,4)+2*(3,6) = (7,16); (m*2)[1].z = 12; (q+q)[1].x = 6; m[1][2]=6; m[0].y=2
+			// (1,2)+2*(5,6) = (11,14); (m*2)[1].z = 12; (q+q)[1].x = 6; m[1][2]=6; m[0].y=2
 			// m*q: col0 = 1*c0+2*c1 = (9,12,15) -> x=9; col1 = 3*c0+4*c1 = (19,26,33) -> z=33
-			want: map[Key][]byte{k(0): f32s(23, 34, 17, 39, 7, 10, 15, 22, 1, 3, 2, 4, -2, 9, 12, 15, 6, 15, 7, 16, 12, 6, 6, 2, 9, 33)},
+			want: map[Key][]byte{k(0): f32s(23, 34, 17, 39, 7, 10, 15, 22, 1, 3, 2, 4, -2, 9, 12, 15, 6, 15, 11, 14, 12, 6, 6, 2, 9, 33)},
+		},
+		{
+			name:     "transpose_times_vector_type",
+			knownBad: true,
+			note:     "transpose of a non-square matrix keeps the operand's column type in later typing: transpose(mat2x3)*vec3 declares result vec3<f32> instead of vec2<f32>, and transpose(m)[0] extracts a vec3 from a mat3x2 (invalid SPIR-V)",
+			src: hdrOF + `
+struct M { m: mat2x3<f32> }
+@group(0) @binding(2) var<storage, read> mm: M;
+@compute @workgroup_size(1) fn main() {
+  let tm = transpose(mm.m) * vec3<f32>(1.0, 0.0, 2.0); o[0] = tm.x; o[1] = tm.y;
+}`,
+			in: func() map[Key][]byte {
+				return map[Key][]byte{k(0): f32s(0, 0), k(1): f32s(0), k(2): f32s(1, 2, 3, 99, 4, 5, 6, 99)}
+			},
+			want: map[Key][]byte{k(0): f32s(7, 16)},
 		},
 		{
 			name: "pack_unpack",
@@ -169,6 +201,32 @@ struct M { m: mat2x3<f32>, q: mat2x2<f32> }
 }`,
 			in:   io(f32s(make([]float32, 14)...), f32s(0, 1)),
 			want: map[Key][]byte{k(0): f32s(0, 1, 1, 0, 0, 0, 0, 0, 0, 1, 0, 0, 0, 0)},
+		},
+		{
+			name: "f16_arithmetic",
+			src: `
+enable f16;
+@group(0) @binding(0) var<storage, read_write> o: array<f16>;
+@group(0) @binding(1) var<storage, read> a: array<f16>;
+@group(0) @binding(2) var<storage, read> f: array<f32>;
+@group(0) @binding(3) var<storage, read_write> g: array<f32>;
+@compute @workgroup_size(1) fn main() {
+  o[0] = a[0] * a[1] + a[2];
+  o[1] = sqrt(a[3]);
+  o[2] = f16(i32(a[0]) + 1);
+  o[3] = f16(f[0]);
+  o[4] = f16(f[1]);
+  g[0] = f32(a[0]) + 0.25;
+  let v = vec2<f16>(a[0], a[1]) * a[1];
+  o[5] = v.x; o[6] = v.y;
+  o[7] = a[4] + a[5];
+}`,
+			in: func() map[Key][]byte {
+				return map[Key][]byte{k(0): u16s(0, 0, 0, 0, 0, 0, 0, 0), k(1): u16s(0x3E00, 0x4000, 0x3400, 0x4880, 0x6800, 0x3C00), k(2): f32s(0.1, 2049), k(3): f32s(0)}
+			},
+			// 1.5*2+.25 = 3.25 (0x4280); sqrt(9)=3 (0x4200); f16(1+1)=2 (0x4000); f16(0.1f)=0x2E66; f16(2049)= tie -> even 2048 (0x6800)
+			// (1.5,2)*2 = (3,4) = 0x4200,0x4400 ; 2048+1 in binary16 = tie -> 2048 (0x6800) ; f32(1.5)+.25 = 1.75
+			want: map[Key][]byte{k(0): u16s(0x4280, 0x4200, 0x4000, 0x2E66, 0x6800, 0x4200, 0x4400, 0x6800), k(3): f32s(1.75)},
 		},
 		{
 			name: "float_inf_nan_ordinary",
